@@ -5,6 +5,7 @@ package main
 import (
 	"fmt"
 	"go/constant"
+	"go/token"
 	"go/types"
 	"strings"
 
@@ -64,7 +65,17 @@ func (t *fnTrans) evalBool(e *evalCtx, sl specLine) (term string, ok bool) {
 			if isSpec {
 				msg = se.msg
 			}
-			t.g.ann.errs = append(t.g.ann.errs, fmt.Sprintf("%s:%d: %s (in %s)", sl.file, sl.line, msg, t.key))
+			// a contract clause that can no longer be evaluated against the code (renamed local,
+			// removed site, changed type) is reported as a failed obligation, not silently dropped
+			if t.quietSpec > 0 {
+				term, ok = "true", false
+				return
+			}
+			save := t.cur.reach
+			o := t.oblige("contract", fmt.Sprintf("%s:%d", sl.file, sl.line), token.NoPos, "false", "contract clause cannot be evaluated on this code: "+msg+" ["+sl.text+"]")
+			o.Trivial = false
+			o.Reach = "true"
+			t.cur.reach = save
 			term, ok = "true", false
 		}
 	}()
